@@ -89,7 +89,7 @@ def vec(a) -> str:
 def boltz_of(e1: float, e2: float, T: float) -> float:
     """exp(-dE/T) as the statement defines it (clamped to a finite float for the line protocol)"""
     with np.errstate(over="ignore", invalid="ignore", divide="ignore"):
-        b = float(np.exp(-(e2 - e1) / T))
+        b = float(np.exp(np.float64(-(e2 - e1)) / np.float64(T)))        # numpy division: T = 0 is a quench, not an error
     if math.isnan(b):
         return 0.0
     return min(b, 1e308)
@@ -958,6 +958,14 @@ def predicates(ctx: Ctx) -> None:
     r = walker_predicate(script, rec)
     if r:
         ctx.fail(r[0], r[1], {"trace": CORPUS_TRACE, **r[2]})
+    # a quench: temperature exactly zero (uphill moves never accepted, downhill ones always)
+    for sd in (3, 11):
+        p = {"surface": "camelback", "seed": sd, "T": 0.0, "step": 1.5, "n_steps": 25}
+        script, rec = run_trace(p)
+        ctx.stats.case({"stream": "predicate-trace-quench", "seed": sd}, True)
+        r = walker_predicate(script, rec)
+        if r:
+            ctx.fail(r[0], r[1] + " (temperature exactly 0)", {"trace": p, **r[2]})
     # scripted runs: all short patterns (cheap), long random ones
     which = "all" if deep else "long"
     scripts = scripted_corpus(ctx, which)
